@@ -174,12 +174,6 @@ func Run(r *report.Run) int {
 			}
 			r.Sample(map[string]any{"d": c.D, "p": c.P, "size": c.Size, "dmg": c.Dmg, "unrepaired": res.Unrepaired, "further_reads": len(res.More), "further_reads_failed": failed})
 		}
-		if len(res.Unrepaired) > 0 {
-			counts["not_repaired"]++
-			add("not-repaired", map[string]any{"observed": res.Unrepaired, "expected": "after the successful read every shard file equals the originally written one"})
-		} else {
-			counts["all_files_identical_after_read"]++
-		}
 		var lost []c25.MoreResult
 		for _, m := range res.More {
 			moreReads++
@@ -187,14 +181,27 @@ func Run(r *report.Run) int {
 				lost = append(lost, m)
 			}
 		}
+		show := lost
+		if len(show) > 4 {
+			show = show[:4]
+		}
 		if len(lost) > 0 {
 			counts["redundancy_lost"]++
-			show := lost
-			if len(show) > 4 {
-				show = show[:4]
-			}
+		}
+		// One violation per case: a shard file left damaged is the cause, the further failures that are
+		// then not tolerated are its consequence and go into the same detail. "redundancy-lost" is
+		// kept for the case where every file is as written and p further failures still break the read.
+		switch {
+		case len(res.Unrepaired) > 0:
+			counts["not_repaired"]++
+			add("not-repaired", map[string]any{"observed": res.Unrepaired, "expected": "after the successful read every shard file equals the originally written one",
+				"further_sets_not_tolerated": show, "failing_further_sets": len(lost), "further_sets_tried": len(res.More)})
+		case len(lost) > 0:
+			counts["all_files_identical_after_read"]++
 			add("redundancy-lost", map[string]any{"observed": show, "failing_further_sets": len(lost), "further_sets_tried": len(res.More), "unrepaired": res.Unrepaired,
 				"expected": "after a successful repairing read any p further shard failures are tolerated"})
+		default:
+			counts["all_files_identical_after_read"]++
 		}
 	}
 	r.Count("further_failure_reads", moreReads)
@@ -223,7 +230,7 @@ func Run(r *report.Run) int {
 			}
 		}
 		v.detail["smallest_culprit"] = v.culprit
-		sig := fmt.Sprintf("C26:%s:%s:%s", c25.Config{D: v.c.D, P: v.c.P}, c25.KindSet(v.culprit), v.class)
+		sig := fmt.Sprintf("C26:%s:%s:%s", c25.Config{D: v.c.D, P: v.c.P}, c25.SigKinds(v.culprit, v.class), v.class)
 		em.Add(sig, len(v.c.Dmg)*1000000+(v.c.D+v.c.P)*100000+min(v.c.Size, 99999), v.detail,
 			fmt.Sprintf("size=%d dmg=[%s] -> %v", v.c.Size, c25.DmgKey(v.c.Dmg), brief(v.detail["observed"])))
 	}
